@@ -63,7 +63,7 @@ impl Property for C04 {
     }
     fn cases(&self, tier: Tier) -> usize {
         match tier {
-            Tier::Quick => 400,
+            Tier::Quick => 800,
             Tier::Thorough => 4000,
         }
     }
